@@ -17,9 +17,9 @@ Lemma cvode_spec tcur tout y cs : script_ok cs ->
   y' - y == t - tcur /\ script_ok cs' /\ ((0 <= f)%Z -> t == tout).
 Proof.
   intro H. unfold cvode. destruct (next_c_ok cs H) as [Ho Hr].
-  destruct (next_c cs) as [o r]. simpl in *. destruct o.
-  - repeat split; auto; try ring; try (intros _; reflexivity).
-  - repeat split; auto; try ring; try (intro Hf; simpl in Ho; lia).
+  destruct (next_c cs) as [o r]. cbn [fst snd] in *. destruct o.
+  - repeat split; auto; try (rewrite Qred_correct; ring); try (intros _; reflexivity).
+  - repeat split; auto; try (rewrite !Qred_correct; ring); try (intro Hf; simpl in Ho; lia).
 Qed.
 
 Section Ladder.
